@@ -21,6 +21,12 @@ theorem usage_eq_sum_live (sched : Sched) (hs : SchedWF sched) (s : State) (h : 
     Consistent (run sched s ops).node.usage (run sched s ops).live :=
   (run_inv sched hs ops s h).cons
 
+/-- the same statement with the decidable predicate the oracle evaluates on the
+    implementation's numbers -/
+theorem usage_eq_sum_live_decidable (sched : Sched) (hs : SchedWF sched) (s : State) (h : Inv s) (ops : List Op) :
+    consistentB (run sched s ops).node.usage (run sched s ops).live = true :=
+  (consistentB_iff _ _).2 (usage_eq_sum_live sched hs s h ops)
+
 /-- … in particular from a freshly added node. -/
 theorem usage_eq_sum_live_fresh (sched : Sched) (hs : SchedWF sched) (capacity : NodeRes)
     (h1 : WF capacity.cpuMap) (h2 : WF capacity.numaMemory) (hv : Valid { capacity := capacity, usage := {} })
